@@ -500,11 +500,7 @@ func (s *Server) liveAOF(pos int64, conn net.Conn, rd *PipelineReader, msg *Mess
 		f.Close()
 	}()
 
-	ack := []byte("+OK\r\n")
-	if msg.OutputType == JSON {
-		ack = redcon.AppendBulkString(nil, `{"ok":true}`)
-	}
-	if _, err := conn.Write(ack); err != nil {
+	if err := writeLiveAck(conn, msg); err != nil {
 		return err
 	}
 	if _, err := f.Seek(pos, 0); err != nil {
